@@ -7,7 +7,7 @@ from .common import TOL
 
 PROPERTY = "C07"
 LEVEL = "exploration"
-RUNS = {"quick": 1200, "thorough": 60000}
+RUNS = {"quick": 3000, "thorough": 60000}
 RULE = ("seeded scenarios: a real client observes a scripted server which emits 3-25 notifications with scenario-chosen "
         "Observe values (small steps, equal values, differences around 2^23, wrap-around at 2^24), CON or NON, whose "
         "ARRIVAL instants are chosen directly (any permutation, duplicates, gaps incl. 128 s -/+ epsilon), and a "
